@@ -12,22 +12,22 @@ Lemma d_get_set k k2 (x dflt : Z) d : d_get k2 dflt (d_set k x d) = if Nat.eqb k
 Proof. unfold d_get. rewrite d_find_set. destruct (Nat.eqb k2 k); reflexivity. Qed.
 
 Theorem get_firings_refines n vs sd s v : rep_vset n vs -> rep_script n sd s ->
-  CFiringScript_get_firings vs sd v = if Nat.ltb v n then Some (nthZ s v) else None.
+  CFiringScript_get_firings vs sd v = if Nat.ltb v n then PyOk (nthZ s v) else PyExn tt.
 Proof. intros Hv [_ Hs]. unfold CFiringScript_get_firings. rewrite (Hv v). destruct (Nat.ltb_spec v n) as [A|A]; cbn [negb]; [rewrite Hs by exact A|]; reflexivity. Qed.
 Theorem set_firings_refines n vs sd s v k : rep_vset n vs -> rep_script n sd s ->
   match CFiringScript_set_firings vs sd v k with
-  | None => sstep n s (SSet v k) = Err
-  | Some sd' => exists s', sstep n s (SSet v k) = Ok s' /\ rep_script n sd' s' end.
-Proof. intros Hv [HL Hs]. unfold CFiringScript_set_firings, sstep. rewrite (Hv v). destruct (Nat.ltb_spec v n) as [A|A]; cbn [negb]; [|reflexivity].
+  | PyExn st => sstep n s (SSet v k) = Err /\ st = sd
+  | PyOk sd' => exists s', sstep n s (SSet v k) = Ok s' /\ rep_script n sd' s' end.
+Proof. intros Hv [HL Hs]. unfold CFiringScript_set_firings, sstep. rewrite (Hv v). destruct (Nat.ltb_spec v n) as [A|A]; cbn [negb]; [|split; reflexivity].
   eexists. split; [reflexivity|]. split; [rewrite upd_length; exact HL|]. intros u Hu. rewrite d_get_set, nthZ_upd, HL.
   destruct (Nat.eqb u v); cbn [andb]; [|apply Hs; exact Hu]. destruct (Nat.ltb_spec v n); [reflexivity|lia]. Qed.
 Theorem update_firings_refines n vs sd s v k : rep_vset n vs -> rep_script n sd s ->
   match CFiringScript_update_firings vs sd v k with
-  | None => sstep n s (SUpdate v k) = Err
-  | Some sd' => exists s', sstep n s (SUpdate v k) = Ok s' /\ rep_script n sd' s' end.
+  | PyExn st => sstep n s (SUpdate v k) = Err /\ st = sd
+  | PyOk sd' => exists s', sstep n s (SUpdate v k) = Ok s' /\ rep_script n sd' s' end.
 Proof. intros Hv Hs. unfold CFiringScript_update_firings. rewrite (get_firings_refines n vs sd s v Hv Hs).
-  pose proof (set_firings_refines n vs sd s v (nthZ s v + k) Hv Hs) as H. unfold sstep in *. destruct (Nat.ltb v n); [|reflexivity].
-  destruct (CFiringScript_set_firings vs sd v (nthZ s v + k)) as [sd'|]; [exact H|discriminate]. Qed.
+  pose proof (set_firings_refines n vs sd s v (nthZ s v + k) Hv Hs) as H. unfold sstep in *. destruct (Nat.ltb v n); [|split; reflexivity].
+  destruct (CFiringScript_set_firings vs sd v (nthZ s v + k)) as [sd'|st]; [exact H|destruct H as [H _]; discriminate]. Qed.
 (* every script state is represented: the dense dictionary *)
 Lemma rep_script_of s : rep_script (length s) (dict_of_div s) s.
 Proof. split; [reflexivity|]. intros v Hv. unfold d_get, dict_of_div. rewrite d_find_of_fun, mem_seq0. destruct (Nat.ltb_spec v (length s)); [reflexivity|lia]. Qed.
